@@ -18,14 +18,17 @@ import types as _types
 from . import common as C
 
 TRUSTED = [
-    "str.lower() is an uninterpreted function in the theorems and ASCII lowering in the driver; generated names use ASCII and uncased CJK only",
+    "str.lower() is an uninterpreted function in the theorems; the driver lowers ASCII and maps U+00C9 to U+00E9 (lowerD); generated names use "
+    "ASCII, uncased CJK and the letters U+00C9 / U+00E9 / U+00DF (str.lower is compared with lowerD on every generated name); other non-ASCII "
+    "cased letters (full case folding, characters whose lower-case form has another length) are not exercised",
     "C03 model scope: ServiceRegistry._add/_remove/async_update, ServiceInfo record builders + memo slots, QueryHandler._get_answer_strategies/"
     "_answer_question/_add_*_answers, DNSRRSet.suppresses, answers._add_answers_additionals; the routing of an answer to the unicast / multicast-now / "
     "aggregate / last-second bucket is not modelled (C11/C12) -- only the union of the buckets is observed; for a query mixing QU and QM questions the "
     "union is compared at record-identity level when the exact comparison fails (two buckets may keep different key objects of one identity)",
     "ServiceInfo construction/validation (service_type_name) and ipaddress parsing are driven, not modelled; interface_index (None or 3) is driven and the "
     "model hard-wires scope_id = None in address records (what _dns_addresses builds today); registered infos always have a server "
-    "(set_server_if_missing) as _add asserts; one datagram per message of a query (no TC continuation through the listener)",
+    "(set_server_if_missing) as _add asserts -- an update with a server-less ServiceInfo is driven on the simulated host only (finding D26); "
+    "queries are parsed with and without a scope id (IPv4 / IPv6 socket) and simulated hosts have one IPv4 or one IPv6 socket, never both",
     "wire order of answers (sorted by name) and of additionals (set iteration order) is not compared; sets are compared as sets",
     "the pending-reply layer of the Lean model (Zc.RHost: replies computed but not yet transmitted, C03_transmitted_current_*) is an abstraction of the "
     "two outgoing queues that the correspondence harness does not drive; the implementation's datagrams around an update/unregister are judged by the "
@@ -46,8 +49,8 @@ ENUM = "_services._dns-sd._udp.local."
 T_PTR, T_A, T_AAAA, T_SRV, T_TXT, T_ANY, T_NSEC = 12, 1, 28, 33, 16, 255, 47
 
 TYPES = ["_a._tcp.local.", "_A._tcp.local.", "_b._tcp.local.", "_s._sub._a._tcp.local.", "_c._udp.local."]
-LABELS = ["x", "y", "z", "X", "Y", "日本"]
-HOSTS = ["h1.local.", "H1.LOCAL.", "h2.local.", None, None]
+LABELS = ["x", "y", "z", "X", "Y", "日本", "Straße", "Éa", "éa"]
+HOSTS = ["h1.local.", "H1.LOCAL.", "h2.local.", None, None, "Éh.local."]
 V4 = [bytes([10, 0, 0, 1]), bytes([10, 0, 0, 2]), bytes([10, 0, 1, 1])]
 V6 = [bytes([0xFE, 0x80] + [0] * 13 + [1]), bytes([0xFE, 0x80] + [0] * 13 + [2]), bytes([0x20, 0x01, 0x0D, 0xB8] + [0] * 11 + [1])]
 ADDR_SHAPES = ["v4", "v6", "dual", "v4v4", "dup4", "none", "v4v6v6", "dual", "dual", "v4v6v6"]
@@ -55,6 +58,21 @@ HOST_TTLS = [120, 120, 10, 121, 1, 0, 4500]
 OTHER_TTLS = [4500, 4500, 60, 61, 2, 1, 0]
 TEXTS = [b"", b"\x03a=1", b"\x03A=1", b"\x06path=/"]
 QTYPES = [T_PTR, T_PTR, T_A, T_AAAA, T_SRV, T_TXT, T_ANY, T_ANY, T_NSEC, 99]
+SCOPES = [None, None, None, 3, 3, 0]   # scope id the query is parsed with: None = IPv4 socket, 3 = link-local peer, 0 = global peer on an IPv6 socket
+
+SIG_D25 = "C03:known-aaaa-ignored-on-ipv6-socket"
+
+
+def model_lower(s):
+    """the driver's `lowerD` (lean/Driver/C03.lean)"""
+    return "".join("\u00e9" if c == "\u00c9" else (c.lower() if c.isascii() else c) for c in s)
+
+
+def check_alphabet(names):
+    """generated names must stay inside the alphabet on which str.lower and the driver's lowering coincide (a harness precondition)"""
+    for n in names:
+        if n is not None and n.lower() != model_lower(n):
+            raise RuntimeError("generated name %r is outside the driver's lowering alphabet" % n)
 
 
 # ------------------------------------------------------------------------------------------
@@ -78,19 +96,28 @@ def gen_svc(rng, name=None, type_=None):
         rng.shuffle(addrs)
     return {"type": t, "name": name, "server": rng.choice(HOSTS), "port": rng.choice([80, 81, 1, 65535]), "weight": rng.choice([0, 0, 1, 7]),
             "priority": rng.choice([0, 0, 1, 7]), "text": rng.choice(TEXTS).hex(), "httl": rng.choice(HOST_TTLS), "ottl": rng.choice(OTHER_TTLS),
-            "addrs": [a.hex() for a in addrs], "ifindex": rng.choice([None, None, None, 3])}
+            "addrs": [a.hex() for a in addrs], "ifindex": rng.choice([None, None, None, 3]), "parsed": rng.random() < 0.2}
 
 
 ARGS = {}   # id(info) -> (info, fields as the *arguments given* say): constructor arguments, then every attribute write
 
 
-def make_info(spec):
+def make_info(spec, set_server=True):
     from zeroconf import ServiceInfo
 
+    packed = [bytes.fromhex(a) for a in spec["addrs"]]
+    if spec.get("parsed"):
+        # the other documented way to hand over addresses: text form (`parsed_addresses=`)
+        import socket
+
+        how = {"parsed_addresses": [socket.inet_ntop(socket.AF_INET if len(a) == 4 else socket.AF_INET6, a) for a in packed]}
+    else:
+        how = {"addresses": packed}
     info = ServiceInfo(spec["type"], spec["name"], spec["port"], spec["weight"], spec["priority"], bytes.fromhex(spec["text"]), spec["server"],
-                       host_ttl=spec["httl"], other_ttl=spec["ottl"], addresses=[bytes.fromhex(a) for a in spec["addrs"]],
-                       interface_index=spec.get("ifindex"))
-    info.set_server_if_missing()  # what async_register_service does before registry.async_add
+                       host_ttl=spec["httl"], other_ttl=spec["ottl"], interface_index=spec.get("ifindex"), **how)
+    check_alphabet([spec["type"], spec["name"], spec["server"]])
+    if set_server:
+        info.set_server_if_missing()  # what async_register_service does before registry.async_add
     ARGS[id(info)] = (info, spec_fields(spec))
     return info
 
@@ -143,6 +170,14 @@ def rline(r):
     return C.rec_line(r, created=0)
 
 
+def wire_line(r):
+    """the record as it is on the wire: an address record without the scope id the receiving socket stamped on it"""
+    t = rline(r).split()
+    if t[0] == "a":
+        t[-1] = "-"
+    return " ".join(t)
+
+
 # ------------------------------------------------------------------------------------------
 # independent Python oracle (tuples: kind, name, type, class, unique, ttl, rdata...)
 
@@ -166,6 +201,27 @@ def rtuple(r):
     raise TypeError(type(r))
 
 
+def rec_from_tuple(t, created=0.0):
+    """a DNSRecord object for an oracle tuple (used to put a copy of an own record into the cache: never built through the
+    ServiceInfo under test, whose memo slots are part of the comparison)"""
+    from zeroconf import _dns as d
+
+    k, name, ty, cl, uq, ttl = t[:6]
+    cl = cl | (0x8000 if uq else 0)
+    r = t[6:]
+    if k == "a":
+        return d.DNSAddress(name, ty, cl, ttl, r[0], scope_id=r[1], created=created)
+    if k == "p":
+        return d.DNSPointer(name, ty, cl, ttl, r[0], created)
+    if k == "t":
+        return d.DNSText(name, ty, cl, ttl, r[0], created)
+    if k == "s":
+        return d.DNSService(name, ty, cl, ttl, r[0], r[1], r[2], r[3], created)
+    if k == "n":
+        return d.DNSNsec(name, ty, cl, ttl, r[0], list(r[1]), created)
+    raise ValueError(t)
+
+
 def ident(t):
     k = t[0]
     rd = t[6:]
@@ -187,12 +243,16 @@ def own_records(f, ettl):
     return ptr, srv, txt, addrs, nsec, missing, enum
 
 
-def candidates(f, qname, qtype, ettl):
+def candidates(f, qname, qtype, ettl, sound=False):
+    """the records of service `f` that answer the question; `sound=True`: the records that *may* be offered -- the property exempts
+    `ANY <host>` from the completeness claim only, so the host's address records are allowed (not owed) for it"""
     ptr, srv, txt, addrs, nsec, missing, enum = own_records(f, ettl)
     n = qname.lower()
     if qtype == T_PTR and n == ENUM:
         return [enum]
     out = []
+    if sound and qtype == T_ANY and n == f["server"].lower():
+        out += addrs
     if qtype in (T_PTR, T_ANY) and n == f["type"].lower():
         out.append(ptr)
     if qtype in (T_A, T_AAAA) and n == f["server"].lower():
@@ -206,8 +266,14 @@ def candidates(f, qname, qtype, ettl):
     return out
 
 
-def oracle(svcs, qs, known, observed, ettl):
-    """-> list of (sig, what, detail).  `observed`: list of (answer tuple, [additional tuples])."""
+def unscoped(t):
+    """a record tuple as it is on the wire: the scope id of an address record is the receiver's annotation"""
+    return t[:-1] + (None,) if t[0] == "a" else t
+
+
+def oracle(svcs, qs, known, observed, ettl, qs_sound=None):
+    """-> list of (sig, what, detail).  `observed`: list of (answer tuple, [additional tuples]); `known`: the querier's list as it
+    is on the wire (callers strip the scope id a receiving IPv6 socket stamps on AAAA records)."""
     bad = []
     kid = [(ident(k), k[5]) for k in known]
     nsec_known = any(k[0] == "n" for k in known)
@@ -221,10 +287,12 @@ def oracle(svcs, qs, known, observed, ettl):
 
     cands = []
     owed = []
+    for qn, qt in (qs if qs_sound is None else qs_sound):
+        for f in svcs:
+            cands += candidates(f, qn, qt, ettl, sound=True)
     for qn, qt in qs:
         for f in svcs:
             c = candidates(f, qn, qt, ettl)
-            cands += c
             host_has = any(g["server"].lower() == f["server"].lower() and (g["v4"] if qt == T_A else g["v6"] if qt == T_AAAA else []) for g in svcs)
             owed += [r for r in c if not (r[0] == "n" and host_has)]
     cset = set(cands)
@@ -277,6 +345,21 @@ class World:
         self.book = {}    # key -> ServiceInfo: what the API calls say is registered (independent of the registry's internals)
         self.dirty = set()  # keys whose registered object was written to since its last register/update
         self.ettl = const._DNS_OTHER_TTL
+        self.clock = 1000000.0  # ms; every query is parsed at its own instant (`DNSIncoming(now=...)`), 10 s after the previous one
+
+    def poke(self, pokes, now):
+        """copies of own records in the cache, `age` ms old at the query: what the host's own multicasts leave behind.  They steer the
+        cache-dependent routing tests (multicast in the last second -> protected queue, within a quarter of the TTL -> unicast only);
+        the union of the four routing buckets -- what is observed -- must not depend on them."""
+        infos = list(self.book.values())
+        for idx, kind, age in pokes:
+            if not infos:
+                return
+            f = fields(infos[idx % len(infos)])
+            ptr, srv, txt, addrs, nsec, missing, enum = own_records(f, self.ettl)
+            pool = {"p": [ptr], "s": [srv], "t": [txt], "a": addrs, "n": nsec, "e": [enum]}[kind]
+            for t in pool:
+                self.qh.cache.async_add_records([rec_from_tuple(t, created=now - age)])
 
     def dump(self):
         r = self.reg
@@ -293,14 +376,18 @@ class World:
                                           b(i._get_address_and_nsec_records_cache)) for k, i in r._services.items())
 
 
-def build_msgs(op, want_packets=False):
-    """the datagrams of a query op, parsed by the real decoder"""
+def build_msgs(op, want_packets=False, now=None):
+    """the datagrams of a query op, parsed by the real decoder -- as `AsyncListener` does it: with the scope id of the sockaddr when
+    the datagram arrives on an IPv6 socket (`op["scope"]`: None = IPv4 socket), and with the arrival time"""
     from zeroconf import DNSIncoming, DNSOutgoing, DNSQuestion, const
 
     msgs = []
     packets = []
+    scope = op.get("scope")
+    source = ("10.9.9.9", 5353) if scope is None else (("fe80::9" if scope else "2001:db8::9"), 5353)
     for m in op["msgs"]:
         out = DNSOutgoing(const._FLAGS_QR_QUERY)
+        check_alphabet([name for name, _, _ in m["qs"]])
         for name, ty, cl in m["qs"]:
             out.add_question(DNSQuestion(name, ty, cl))
         for line in m["answers"]:
@@ -312,7 +399,7 @@ def build_msgs(op, want_packets=False):
         pk = out.packets()
         if len(pk) != 1:
             raise RuntimeError("generated query does not fit one packet")
-        inc = DNSIncoming(pk[0])
+        inc = DNSIncoming(pk[0], source, scope, now)
         if not inc.valid:
             raise RuntimeError("generated query does not parse")
         msgs.append(inc)
@@ -332,7 +419,9 @@ def exec_history(ops, want_lines=True):
         k = op["op"]
         line = None
         q = None
-        msgs = build_msgs(op) if k == "Q" else None  # a failure here is a harness bug, not a library exception
+        if k == "Q":
+            w.clock += 10000.0
+        msgs = build_msgs(op, now=w.clock) if k == "Q" else None  # a failure here is a harness bug, not a library exception
         try:
             if k == "R":
                 info = make_info(op["svc"])
@@ -398,6 +487,7 @@ def exec_history(ops, want_lines=True):
             elif k == "Q":
                 line = msg_line(msgs)
                 svcs = [fields(i) for i in w.book.values()]
+                w.poke(op.get("pokes", []), w.clock)
                 qa = w.qh.async_response(msgs, bool(op.get("ucast")))
                 merged = {}
                 keyobj = {}
@@ -419,7 +509,8 @@ def exec_history(ops, want_lines=True):
                         buckets.append((bname, [(r, list(adds)) for r, adds in d.items()], [a for a, _ in o.answers], list(o.additionals)))
                 impl = "%s # %s" % ("none" if qa is None else canon_dict(merged), w.memo())
                 known = [a for m in msgs if not m.is_probe() for a in m.answers()]
-                q = {"svcs": svcs, "qs": [x for m in msgs for x in m.questions], "known": known, "observed": list(keyobj.values()), "none": qa is None,
+                q = {"svcs": svcs, "qs": [x for m in msgs for x in m.questions], "known": known, "scope": op.get("scope"),
+                     "observed": list(keyobj.values()), "none": qa is None,
                      "buckets": buckets, "conflict": conflict, "dirty": bool(w.dirty), "ettl": w.ettl, "merged": merged,
                      "mixed": len({bool(x.unique) for m in msgs for x in m.questions}) > 1,
                      "in_scope": all(x.class_ == 1 for m in msgs for x in m.questions)}
@@ -449,11 +540,29 @@ def canon_model_answers(s):
     return canon_dict(merged)
 
 
+def classify_scope(bad, svcs, qs, seen, observed, ettl, scope, qs_sound=None):
+    """D25's input class: the query was parsed with a scope id, and the only reason an address record is `offered although known` is
+    that scope id -- judged with the list as the parser stamped it (`seen`) the same record is not known.  Everything else keeps its
+    signature (a fresh violation)."""
+    if scope is None or not any(sig == "C03:answer-despite-known:a" for sig, _, _ in bad):
+        return bad
+    stamped = {d for sig, _, d in oracle(svcs, qs, seen, observed, ettl, qs_sound=qs_sound) if sig == "C03:answer-despite-known:a"}
+    out = []
+    for sig, what, d in bad:
+        if sig == "C03:answer-despite-known:a" and d[2] == T_AAAA and d not in stamped:
+            out.append((SIG_D25, "a known AAAA answer (more than half the TTL) received on an IPv6 socket does not suppress: the parser stamps the "
+                        "socket's scope id on it, the responder's own record has none, identity compares it (D25)", d))
+        else:
+            out.append((sig, what, d))
+    return out
+
+
 def oracle_on(q):
     svcs, qs = q["svcs"], [(x.name, x.type) for x in q["qs"]]
-    known = [rtuple(k) for k in q["known"]]
+    seen = [rtuple(k) for k in q["known"]]
+    known = [unscoped(k) for k in seen]
     observed = [(rtuple(a), [rtuple(x) for x in adds]) for a, adds in q["observed"]]
-    bad = oracle(svcs, qs, known, observed, q["ettl"])
+    bad = classify_scope(oracle(svcs, qs, known, observed, q["ettl"]), svcs, qs, seen, observed, q["ettl"], q.get("scope"))
     if q["conflict"]:
         bad.append(("C03:bucket-conflict", "the same answer carries different additionals in two routing buckets", None))
     for bname, d, answers, adds in q["buckets"]:
@@ -536,14 +645,67 @@ def msg_line(msgs):
     parts = []
     for m in msgs:
         ans = m.answers()
-        parts.append("%d %d %s %d %s" % (1 if m.is_probe() else 0, len(m.questions), " ".join(C.question_line(x) for x in m.questions),
-                                       len(ans), " ".join(rline(a) for a in ans)))
+        parts.append("%d %d %d %s %d %s" % (1 if m.is_probe() else 0, 0 if m.scope_id is None else 1, len(m.questions),
+                                          " ".join(C.question_line(x) for x in m.questions), len(ans), " ".join(rline(a) for a in ans)))
     return "Q %d %s" % (len(msgs), " ".join(parts))
 
 
-def exec_wire(ops, seed):
+MDNS6 = "ff02::fb"
+
+
+def make_wire_host(sim, v6):
+    """a simulated host with one IPv4 socket, or with one IPv6 socket (sockaddr 4-tuples: the listener hands the scope id of every
+    datagram to the parser).  The simulator's link loops IPv4 multicasts back to the sender; for the IPv6 group that is done here."""
+    import socket
+    from unittest import mock
+
+    from . import vsim
+
+    if not v6:
+        return sim.make_host("A", "10.0.0.1")
+    from zeroconf import Zeroconf
+    import zeroconf._core as core
+
+    class Sock6(vsim.FakeSock):
+        def __init__(self, fileno, addr):
+            super().__init__(fileno, addr)
+            self.family = socket.AF_INET6
+
+    host = vsim.Host(sim, "A", "fe80::1")
+    sock = Sock6(10, ("fe80::1", 5353, 0, 3))
+    vsim._sock_host[id(sock)] = host
+    host.sock = sock
+    with mock.patch.object(core, "create_sockets", lambda *a, **k: (None, [sock])):
+        zc = Zeroconf(interfaces=["10.0.0.1"])
+    host.zc = zc
+
+    def loop_back(t, src, data, addr):
+        if addr[0] == MDNS6 and src is host:
+            d = sim.net_rng.randint(0, sim.net.maxdelay)
+            sim.loop.call_later(d / 1000.0, host.deliver, data, ("fe80::1", 5353, 0, 3))
+
+    sim.net.on_send = loop_back
+    return host
+
+
+def pending_snapshot(zc):
+    """the reply groups waiting in the two multicast queues (flush bit normalised as on the wire): used only to *classify* a stale
+    record seen after an update/unregister as `queued before the change` (the recorded findings D20*) or not (a fresh violation).
+    None when the queues cannot be read (then nothing is classified as a recorded finding)."""
+    try:
+        groups = []
+        for name in ("out_queue", "out_delay_queue"):
+            for g in getattr(zc, name).queue:
+                groups.append({fixu(rtuple(a)) for a in g.answers})
+        return groups
+    except Exception:  # noqa: BLE001
+        return None
+
+
+def exec_wire(ops, seed, v6=False):
     """Run a history through the public API of a real Zeroconf instance under the virtual-time simulator; queries are injected
-    datagrams and the observation is what the host then puts on the wire (unicast and multicast, any delay up to 2.6 s)."""
+    datagrams and the observation is what the host then puts on the wire (unicast and multicast, any delay up to 2.6 s).
+    `v6`: the host's only socket is an IPv6 socket (queries arrive with a 4-tuple sockaddr and are parsed with its scope id)."""
     from zeroconf import DNSIncoming, const
 
     from . import vsim
@@ -552,11 +714,37 @@ def exec_wire(ops, seed):
     steps = []
     ARGS.clear()
 
+    def scope_of(op):
+        if not v6:
+            return None
+        return 3 if op.get("scope") is None else op["scope"]
+
+    def src_of(op, port):
+        sc = scope_of(op)
+        if sc is None:
+            return ("10.9.9.9", port)
+        return (("fe80::9" if sc else "2001:db8::9"), port, 0, sc)
+
+    def parse(op):
+        return build_msgs(dict(op, scope=scope_of(op)), want_packets=True)
+
+    def grab(start, mark=None):
+        pkts = []
+        for j, (t, src, dst, port, data) in enumerate(sim.net.log[start:]):
+            inc = DNSIncoming(data)
+            if inc.is_query():
+                continue
+            recs = inc.answers()
+            na = inc.num_answers
+            pkts.append({"t": t, "dst": dst, "answers": recs[:na], "adds": recs[na + inc.num_authorities:],
+                         "after": mark is not None and start + j >= mark})
+        return pkts
+
     async def main(sim):
-        host = sim.make_host("A", "10.0.0.1")
+        host = make_wire_host(sim, v6)
         zc = host.zc
         await zc.async_wait_for_start()
-        objs, book = {}, {}
+        objs, book, lost, serverless = {}, {}, set(), set()
         for op in ops:
             k = op["op"]
             q = None
@@ -566,16 +754,30 @@ def exec_wire(ops, seed):
                     if info is None:
                         continue
                 else:
-                    info = make_info(op["svc"])
+                    info = make_info(dict(op["svc"], server=None) if op.get("noserver") else op["svc"], set_server=not op.get("noserver"))
                     objs[op["obj"]] = info
+                    if op.get("noserver"):
+                        serverless.add(op["obj"])
+                noserver = op["obj"] in serverless and info.server is None
+                if k == "R" and op.get("ttl") is not None:
+                    # `async_register_service(info, ttl=...)`: the documented (legacy) way to configure both TTLs
+                    ARGS[id(info)][1]["httl"] = ARGS[id(info)][1]["ottl"] = op["ttl"]
                 line = ("R " if k == "R" else "U ") + svc_line(fields(info))
                 try:
-                    fut = await (zc.async_register_service(info) if k == "R" else zc.async_update_service(info))
+                    if k == "R":
+                        fut = await (zc.async_register_service(info, ttl=op["ttl"]) if op.get("ttl") is not None else zc.async_register_service(info))
+                    else:
+                        fut = await zc.async_update_service(info)
                     await fut
                     book[info.key] = info
+                    lost.discard(info.key)
                     impl = "ok"
                 except Exception as ex:  # noqa: BLE001
                     impl = type(ex).__name__
+                    if noserver and isinstance(ex, AssertionError):
+                        # `async_update_service` with a ServiceInfo that has no `server=` (finding D26): the model has no such call
+                        lost.add(info.key)
+                        line = None
                 await sim.sleep_ms(1500)
             elif k == "X":
                 infos = [objs[i] for i in op["objs"] if i in objs]
@@ -588,6 +790,7 @@ def exec_wire(ops, seed):
                         fut = await zc.async_unregister_service(i)
                         await fut
                         book.pop(i.key, None)
+                        lost.discard(i.key)
                     except Exception as ex:  # noqa: BLE001
                         impl = type(ex).__name__
                 await sim.sleep_ms(1500)
@@ -598,44 +801,44 @@ def exec_wire(ops, seed):
                 apply_mut(info, op["mut"])
                 continue  # always followed by U in the wire stream; the model is told through U's fields
             elif k == "Q":
-                msgs, packets = build_msgs(op, want_packets=True)
+                msgs, packets = parse(op)
                 line = msg_line(msgs)
                 svcs = [fields(i) for i in book.values()]
                 start = len(sim.net.log)
-                host.inject(packets[0], "10.9.9.9", op.get("port", 5353))
+                host.deliver(bytes(packets[0]), src_of(op, op.get("port", 5353)))
                 await sim.sleep_ms(2600)
-                pkts = []
-                for (t, src, dst, port, data) in sim.net.log[start:]:
-                    inc = DNSIncoming(data)
-                    if inc.is_query():
-                        continue
-                    recs = inc.answers()
-                    na = inc.num_answers
-                    pkts.append({"dst": dst, "answers": recs[:na], "adds": recs[na + inc.num_authorities:]})
                 impl = "wire"
-                q = {"svcs": svcs, "qs": list(msgs[0].questions), "known": list(msgs[0].answers()) if not msgs[0].is_probe() else [], "pkts": pkts,
-                     "ettl": const._DNS_OTHER_TTL, "in_scope": all(x.class_ == 1 for x in msgs[0].questions)}
+                q = {"svcs": svcs, "qs": list(msgs[0].questions), "known": list(msgs[0].answers()) if not msgs[0].is_probe() else [], "pkts": grab(start),
+                     "scope": scope_of(op), "ettl": const._DNS_OTHER_TTL, "in_scope": all(x.class_ == 1 for x in msgs[0].questions), "lost": set(lost)}
+            elif k == "QB":
+                # a burst: 2-3 different query datagrams (same questions, different bytes) less than a second apart -- the later ones
+                # find the record multicast in the last second (flood protection: the reply is delayed, not dropped)
+                svcs = [fields(i) for i in book.values()]
+                marks, parsed = [], []
+                for j, qop in enumerate(op["queries"]):
+                    msgs, packets = parse(qop)
+                    marks.append(len(sim.net.log))
+                    parsed.append((qop, msgs))
+                    host.deliver(bytes(packets[0]), src_of(qop, 5353))
+                    await sim.sleep_ms(op["gaps"][j] if j < len(op["gaps"]) else 0)
+                await sim.sleep_ms(2600)
+                allq = [x for _, msgs in parsed for x in msgs[0].questions]
+                for j, (qop, msgs) in enumerate(parsed):
+                    steps.append({"op": qop, "line": msg_line(msgs), "impl": "wire",
+                                  "q": {"burst": (j, len(parsed)), "svcs": svcs, "qs": list(msgs[0].questions), "allqs": allq, "known": [], "pkts": grab(marks[j]),
+                                        "scope": scope_of(qop), "ettl": const._DNS_OTHER_TTL, "in_scope": True, "lost": set(lost)}})
+                continue
             elif k == "QC":
-                def grab(start, mark):
-                    pkts = []
-                    for j, (t, src, dst, port, data) in enumerate(sim.net.log[start:]):
-                        inc = DNSIncoming(data)
-                        if inc.is_query():
-                            continue
-                        recs = inc.answers()
-                        na = inc.num_answers
-                        pkts.append({"t": t, "dst": dst, "answers": recs[:na], "adds": recs[na + inc.num_authorities:], "after": start + j >= mark})
-                    return pkts
-
                 start = len(sim.net.log)
                 svcs_before = [fields(i) for i in book.values()]
                 qsteps = []
                 for qop, gap in ([(op["pre"], op.get("pre_gap", 300))] if op.get("pre") else []) + [(op["query"], op["delay"])]:
-                    msgs, packets = build_msgs(qop, want_packets=True)
+                    msgs, packets = parse(qop)
                     qsteps.append({"op": qop, "line": msg_line(msgs), "impl": "wire", "msgs": msgs})
-                    host.inject(packets[0], "10.9.9.9", 5353)
+                    host.deliver(bytes(packets[0]), src_of(qop, 5353))
                     await sim.sleep_ms(gap)
                 mark = len(sim.net.log)
+                pending = pending_snapshot(zc)
                 # ---- the change block: no await between the attribute writes and the registry call
                 futs, csteps, changed, kinds = [], [], {}, []
                 for c in op["change"]:
@@ -666,7 +869,14 @@ def exec_wire(ops, seed):
                         for i in infos:
                             if i.key in book:
                                 changed.setdefault(i.key, fields(book[i.key]))
-                            futs.append(await zc.async_unregister_service(i))
+                            handle = i
+                            if c.get("copy") and book.get(i.key) is i:
+                                # an equal copy: a new ServiceInfo built from the current values of the registered one
+                                f = fields(i)
+                                handle = make_info({"type": f["type"], "name": f["name"], "server": f["server"], "port": f["port"], "weight": f["weight"],
+                                                    "priority": f["priority"], "text": f["text"].hex(), "httl": f["httl"], "ottl": f["ottl"],
+                                                    "addrs": [a.hex() for a in f["v4"] + f["v6"]], "ifindex": None})
+                            futs.append(await zc.async_unregister_service(handle))
                             book.pop(i.key, None)
                         kinds.append("unregister")
                     else:
@@ -676,11 +886,13 @@ def exec_wire(ops, seed):
                 for f in futs:
                     await f
                 pkts = grab(start, mark)
+                allq = [x for z in qsteps for x in z["msgs"][0].questions]
                 for n, qs_ in enumerate(qsteps):
                     m0 = qs_.pop("msgs")[0]
-                    qs_["q"] = {"split": True, "svcs": svcs_before, "svcs_after": [fields(i) for i in book.values()], "changed": changed, "kinds": kinds,
-                                "qs": list(m0.questions), "known": [], "pkts": pkts if n == len(qsteps) - 1 else [], "delay": op["delay"],
-                                "ettl": const._DNS_OTHER_TTL, "in_scope": True}
+                    qs_["q"] = {"split": (n, len(qsteps)), "svcs": svcs_before, "svcs_after": [fields(i) for i in book.values()], "changed": changed, "kinds": kinds,
+                                "qs": list(m0.questions), "allqs": allq,
+                                "known": [], "pkts": pkts if n == len(qsteps) - 1 else [], "delay": op["delay"], "pending": pending,
+                                "scope": scope_of(op["query"]), "ettl": const._DNS_OTHER_TTL, "in_scope": True, "lost": set(lost)}
                 steps.extend(qsteps)
                 steps.extend(csteps)
                 continue
@@ -733,8 +945,9 @@ def nou(line):
     return " ".join(t)
 
 
-def wire_oracle(q):
-    """the property's sentence on what was put on the wire"""
+def wire_oracle(q, complete=True):
+    """the property's sentence on what was put on the wire.  In a burst (`allqs`) a datagram may answer any of the burst's queries
+    (soundness is judged against all their questions); each query is owed its records in a datagram sent after its own arrival."""
     union = {}
     bad = []
     rtuple = lambda r: fixu(globals()["rtuple"](r))  # noqa: E731
@@ -742,8 +955,21 @@ def wire_oracle(q):
         for a in p["answers"]:
             union[rline(a)] = a
     svcs, qs = q["svcs"], [(x.name, x.type) for x in q["qs"]]
-    known = [rtuple(k) for k in q["known"]]
-    bad += oracle(svcs, qs, known, [(rtuple(a), []) for a in union.values()], q["ettl"])
+    qs_sound = [(x.name, x.type) for x in q.get("allqs", q["qs"])]
+    seen = [rtuple(k) for k in q["known"]]
+    known = [unscoped(k) for k in seen]
+    observed = [(rtuple(a), []) for a in union.values()]
+    found = oracle(svcs, qs, known, observed, q["ettl"], qs_sound=qs_sound)
+    found = classify_scope(found, svcs, qs, seen, observed, q["ettl"], q.get("scope"), qs_sound=qs_sound)
+    if not complete:
+        found = [x for x in found if not x[0].startswith("C03:missing-answer")]
+    lost = q.get("lost") or set()
+    for sig, what, d in found:
+        if sig.startswith("C03:missing-answer") and any(d in all_own([f], q["ettl"]) for f in svcs if f["name"].lower() in lost):
+            bad.append((SIG_D26, "async_update_service(info) with a ServiceInfo that has no server= raised AssertionError after the registry had already "
+                        "dropped the registered service: neither the old nor the new state answers (D26)", d))
+        else:
+            bad.append((sig, what, d))
     for p in q["pkts"]:
         aid = {ident(rtuple(a)) for a in p["answers"]}
         allowed = set()
@@ -751,16 +977,16 @@ def wire_oracle(q):
             ptr, srv, txt, addrs, nsec, missing, enum = own_records(f, q["ettl"])
             if aid & {ident(x) for x in [ptr, srv, txt] + addrs + nsec}:
                 allowed |= set([srv, txt] + addrs + nsec)
-        seen = set()
+        seen_ids = set()
         for x in p["adds"]:
             t = rtuple(x)
             if ident(t) in aid:
                 bad.append(("C03:additional-repeats-answer", "an additional record repeats an answer of the same datagram", t))
-            if ident(t) in seen:
+            if ident(t) in seen_ids:
                 bad.append(("C03:additional-twice", "an additional record appears twice in one datagram", t))
             if t not in allowed:
                 bad.append(("C03:foreign-additional:wire", "a datagram carries an additional that is not an SRV/TXT/address/NSEC record of a service owning one of its answers", t))
-            seen.add(ident(t))
+            seen_ids.add(ident(t))
     return bad
 
 
@@ -775,42 +1001,99 @@ def all_own(svcs, ettl):
 SIG_D20 = "C03:queued-answer-superseded-by-update"
 SIG_D20B = "C03:queued-enumeration-pointer-after-unregister"
 SIG_D20C = "C03:queued-shared-host-record-after-unregister"
+SIG_D26 = "C03:update-without-server-loses-service"
+# signatures of the recorded findings (known_findings.json): the search goes on past them, each is reported at most three times per run
+KNOWN_SIGS = {SIG_D20, SIG_D20B, SIG_D20C, SIG_D25, SIG_D26}
+
+
+def fresh_violation(res):
+    return any(v["sig"] not in KNOWN_SIGS for v in res.violations)
 
 
 def change_oracle(q):
     """`after a service is updated or unregistered replies reflect only the new state`, on the wire: every record of a response
-    datagram transmitted after the update/unregister block (TTL-0 goodbyes aside) is a record of a service registered *then*;
-    datagrams transmitted before it are judged against the state before."""
+    datagram transmitted after the update/unregister block (the goodbyes of the withdrawn service aside) is a record of a service
+    registered *then*; datagrams transmitted before it are judged against the state before and against the questions asked.
+
+    A stale record after the change is one of the recorded findings D20/D20b/D20c **only if the input is in their class**: the
+    datagram is a reply that was waiting in a multicast queue when the change was made (its answers were all pending then, and each
+    pending answer explains one datagram).  Anything else -- a stale announcement of the update itself, a reply computed after the
+    change from stale state -- is a fresh violation."""
     bad = []
-    before, after = all_own(q["svcs"], q["ettl"]), all_own(q["svcs_after"], q["ettl"])
+    after = all_own(q["svcs_after"], q["ettl"])
     old = all_own(list(q["changed"].values()), q["ettl"])
+    goodbye = {t[:5] + t[6:] for t in old}
+    pending = q.get("pending")
+    budget = {}
+    for g in pending or []:
+        for t in g:
+            budget[t] = budget.get(t, 0) + 1
+    # ---- datagrams sent before the change: replies to the questions asked, in the state before
+    pre = [p for p in q["pkts"] if not p["after"]]
+    if pre:
+        bad += wire_oracle(dict(q, pkts=pre, known=[]), complete=False)
     for p in q["pkts"]:
-        for r in list(p["answers"]) + list(p["adds"]):
-            t = fixu(rtuple(r))
-            if not p["after"]:
-                if t not in before:
-                    bad.append(("C03:unsound-answer:%s" % t[0], "a datagram sent before the change carries a record that is not a record of a registered service", t))
-                continue
-            if t in after or (t[5] == 0 and "unregister" in q["kinds"]):
-                continue
+        if not p["after"]:
+            continue
+        answers = [fixu(rtuple(r)) for r in p["answers"]]
+        recs = answers + [fixu(rtuple(r)) for r in p["adds"]]
+        stale = [t for t in recs if t not in after and not (t[5] == 0 and "unregister" in q["kinds"] and t[:5] + t[6:] in goodbye)]
+        if not stale:
+            continue
+        queued = pending is not None and all(budget.get(t, 0) > 0 for t in answers)
+        if queued:
+            for t in answers:
+                budget[t] -= 1
+        for t in stale:
             if t in old and "update" in q["kinds"]:
-                bad.append((SIG_D20, "a reply computed before async_update_service and still queued was multicast after the update with the "
-                            "service's superseded record (D20)", t))
+                if queued:
+                    bad.append((SIG_D20, "a reply computed before async_update_service and still queued was multicast after the update with the "
+                                "service's superseded record (D20)", t))
+                else:
+                    bad.append(("C03:stale-record-after-update:%s" % t[0], "a datagram that was not waiting in a queue when async_update_service was called "
+                                "(an announcement of the update, or a reply computed afterwards) carries the service's superseded record", t))
             elif t in old:
                 hosts_left = {f["server"].lower() for f in q["svcs_after"]}
                 shared = any(f["server"].lower() in hosts_left and t in set(own_records(f, q["ettl"])[3] + own_records(f, q["ettl"])[4])
                              for f in q["changed"].values())
-                if t[0] == "p" and t[1].lower() == ENUM:
+                if queued and t[0] == "p" and t[1].lower() == ENUM:
                     bad.append((SIG_D20B, "a type-enumeration answer queued before async_unregister_service went out afterwards although no service of that "
                                 "type is registered any more (the enumeration pointer is not among the records the D5 repair purges)", t))
-                elif t[0] in ("a", "n") and shared:
+                elif queued and t[0] in ("a", "n") and shared:
                     bad.append((SIG_D20C, "an address/NSEC record of the withdrawn service (its TTL, its instance name), queued before async_unregister_service, "
                                 "went out afterwards: with another service on the host these records are neither purged nor said goodbye to", t))
                 else:
-                    bad.append(("C03:queued-answer-after-unregister:%s" % t[0], "a reply queued before async_unregister_service went out afterwards with a record of the withdrawn service", t))
+                    bad.append(("C03:queued-answer-after-unregister:%s" % t[0], "a datagram sent after async_unregister_service carries a record of the withdrawn service", t))
             else:
                 bad.append(("C03:unsound-answer:after-change:%s" % t[0], "a datagram sent after the change carries a record of no registered service", t))
     return bad
+
+
+TARGET = {"port": ["srv"], "weight": ["srv"], "priority": ["srv"], "text": ["txt", "any"], "httl": ["srv", "a+aaaa"], "ottl": ["ptr", "txt"], "addrs": ["a+aaaa", "ptr+a"]}
+
+
+def shaped_questions(f, shape, qu=0):
+    qs = {"srv+txt": [[f["name"], T_TXT, 1], [f["name"], T_SRV, 1]], "ptr": [[f["type"], T_PTR, 1]], "txt": [[f["name"], T_TXT, 1]],
+          "any": [[f["name"], T_ANY, 1]], "ptr+a": [[f["type"], T_PTR, 1], [f["server"], T_A, 1]],
+          "a+aaaa": [[f["server"], T_A, 1], [f["server"], T_AAAA, 1]], "enum": [[ENUM, T_PTR, 1], [f["type"], T_PTR, 1]], "srv": [[f["name"], T_SRV, 1]]}[shape]
+    return [[n, t, c | qu] for n, t, c in qs]
+
+
+def plain_query(qs, answers=(), scope=None):
+    return {"op": "Q", "ucast": False, "scope": scope, "msgs": [{"probe": False, "qs": [list(x) for x in qs], "answers": list(answers)}]}
+
+
+def new_value(rng, spec, kind):
+    """a value for an attribute write that differs from the current one"""
+    pool = {"port": [80, 81, 8080], "weight": [0, 1, 7], "priority": [0, 1, 7], "text": [t.hex() for t in TEXTS], "httl": [120, 10, 121, 4500],
+            "ottl": [4500, 60, 61]}
+    if kind == "addrs":
+        for _ in range(20):
+            val = gen_svc(rng)["addrs"]
+            if sorted(val) != sorted(spec["addrs"]):
+                return val
+        return []
+    return rng.choice([v for v in pool[kind] if v != spec[kind]])
 
 
 def gen_change_history(rng):
@@ -836,22 +1119,17 @@ def gen_change_history(rng):
         f = spec_fields(live[i])
         qu = 0x8000 if rng.random() < 0.15 else 0
         shape = rng.choice(["srv+txt", "ptr", "txt", "any", "ptr+a", "a+aaaa", "enum", "srv"])
-        qs = {"srv+txt": [[f["name"], T_TXT, 1], [f["name"], T_SRV, 1]], "ptr": [[f["type"], T_PTR, 1]], "txt": [[f["name"], T_TXT, 1]],
-              "any": [[f["name"], T_ANY, 1]], "ptr+a": [[f["type"], T_PTR, 1], [f["server"], T_A, 1]],
-              "a+aaaa": [[f["server"], T_A, 1], [f["server"], T_AAAA, 1]], "enum": [[ENUM, T_PTR, 1], [f["type"], T_PTR, 1]], "srv": [[f["name"], T_SRV, 1]]}[shape]
-        qs = [[n, t, c | qu] for n, t, c in qs]
-        query = {"op": "Q", "ucast": False, "msgs": [{"probe": False, "qs": qs, "answers": []}]}
-        op = {"op": "QC", "query": query, "delay": rng.choice([0, 1, 5, 15, 30, 60, 100, 119, 121, 200, 400, 600, 1100])}
+        qs = shaped_questions(f, shape, qu)
+        op = {"op": "QC", "query": plain_query(qs), "delay": rng.choice([0, 1, 5, 15, 30, 60, 100, 119, 121, 200, 400, 600, 1100])}
         if rng.random() < 0.3:
-            op["pre"] = {"op": "Q", "ucast": False, "msgs": [{"probe": False, "qs": list(reversed(qs)) + [["nosuch.local.", T_A, 1]], "answers": []}]}
+            op["pre"] = plain_query(list(reversed(qs)) + [["nosuch.local.", T_A, 1]])
             op["pre_gap"] = rng.choice([150, 300, 600, 900])
             op["delay"] = rng.choice([0, 30, 200, 600, 900, 1050, 1100])
         r = rng.random()
         if r < 0.45:
             kind = rng.choice(["port", "text", "httl", "ottl", "addrs", "port"])
-            val = {"port": rng.choice([81, 8080]), "text": rng.choice(TEXTS[1:]).hex(), "httl": rng.choice([120, 10, 121]), "ottl": rng.choice([4500, 60, 61]),
-                   "addrs": gen_svc(rng)["addrs"]}[kind]
-            live[i]["addrs" if kind == "addrs" else kind] = val
+            val = new_value(rng, live[i], kind)
+            live[i][kind] = val
             op["change"] = [{"op": "M", "obj": i, "mut": [kind, val]}, {"op": "U", "obj": i}]
         elif r < 0.75:
             spec = gen_svc(rng, name=live[i]["name"], type_=live[i]["type"])
@@ -861,21 +1139,23 @@ def gen_change_history(rng):
             live[nid] = spec
             nid += 1
         else:
-            op["change"] = [{"op": "X", "objs": [i]}]
+            op["change"] = [{"op": "X", "objs": [i], "copy": rng.random() < 0.3}]
             del live[i]
         ops.append(op)
     return ops
 
 
 def gen_wire_history(rng):
-    """short histories with unique names (the public API probes for conflicts), writes always followed by update"""
+    """short histories with unique names (the public API probes for conflicts), writes always followed by update and by a question
+    about what was written; bursts of queries less than a second apart; a known AAAA answer at full TTL; `ttl=` on registration;
+    an update with a ServiceInfo that has no `server=`"""
     ops = []
     live = {}
     past = []
     nid = 0
     for _ in range(rng.choice([3, 5, 7])):
         r = rng.random()
-        if r < 0.4 or not live:
+        if r < 0.34 or not live:
             spec = gen_svc(rng)
             if any(s["name"].lower() == spec["name"].lower() for s in list(live.values()) + past):
                 continue
@@ -884,33 +1164,82 @@ def gen_wire_history(rng):
                 spec["server"] = o["server"] if o["server"] else o["name"]
                 if rng.random() < 0.5:
                     spec["addrs"] = list(o["addrs"])
-            ops.append({"op": "R", "svc": spec, "obj": nid})
+            op = {"op": "R", "svc": spec, "obj": nid}
+            if rng.random() < 0.25:
+                op["ttl"] = rng.choice([60, 10, 4500, 121])
+                spec = dict(spec, httl=op["ttl"], ottl=op["ttl"])
+            ops.append(op)
             live[nid] = spec
             nid += 1
-        elif r < 0.55:
+            if "ttl" in op:
+                ops.append(dict(plain_query(shaped_questions(spec_fields(spec), rng.choice(["ptr", "txt", "srv+txt", "any"]))), port=5353))
+                continue
+        elif r < 0.46:
             i = rng.choice(list(live))
             ops.append({"op": "X", "objs": [i]})
             past.insert(0, live.pop(i))
             ops.append(dict(gen_query(rng, cur_fields(live), fl(past), force_enum=True), port=5353))
-        elif r < 0.7:
+        elif r < 0.62:
             i = rng.choice(list(live))
             s = live[i]
-            kind = rng.choice(["port", "text", "httl", "ottl", "addrs"])
-            val = {"port": rng.choice([81, 8080]), "text": rng.choice(TEXTS).hex(), "httl": rng.choice(HOST_TTLS), "ottl": rng.choice(OTHER_TTLS),
-                   "addrs": gen_svc(rng)["addrs"]}[kind]
-            s["addrs" if kind == "addrs" else kind] = val
+            kind = rng.choice(["port", "text", "httl", "ottl", "addrs", "weight"])
+            val = new_value(rng, s, kind)
+            s[kind] = val
             ops.append({"op": "M", "obj": i, "mut": [kind, val]})
             ops.append({"op": "U", "obj": i})
+            # ask for what was written (the update must have taken effect: new value, and nothing of the old one)
+            ops.append(dict(plain_query(shaped_questions(spec_fields(s), rng.choice(TARGET[kind]), 0x8000 if rng.random() < 0.2 else 0)), port=5353))
+            continue
+        elif r < 0.78:
+            # a burst of 2-3 queries for the same records, different bytes (the listener drops byte-identical datagrams within 1 s)
+            f = spec_fields(live[rng.choice(list(live))])
+            qs = shaped_questions(f, rng.choice(["srv", "srv+txt", "ptr", "a+aaaa", "txt", "ptr+a", "any"]))
+            queries = [plain_query(qs + [["nosuch.local.", T_A, 1]]), plain_query(qs), plain_query(list(reversed(qs)) + [["nosuch2.local.", T_A, 1]])][: rng.choice([2, 2, 3])]
+            ops.append({"op": "QB", "queries": queries, "gaps": [rng.choice([50, 150, 300, 450, 600, 900, 999]) for _ in queries[:-1]]})
+            continue
+        elif r < 0.86:
+            # the querier lists an address record with its full TTL: nothing is owed for it (on an IPv6 socket: D25)
+            cands = [s for s in live.values() if s["addrs"]]
+            if cands:
+                f = spec_fields(rng.choice(cands))
+                al = [(T_A, a) for a in f["v4"]] + [(T_AAAA, a) for a in f["v6"]]
+                al = [x for x in al if x[0] == T_AAAA] * 3 + al
+                ty, a = rng.choice(al)
+                line = "a %s %d 1 %d %d 0 %s -" % (C.hs(f["server"]), ty, rng.choice([0, 1]), rng.choice([f["httl"], f["httl"], f["httl"] // 2 + 1, f["httl"] // 2]), C.hx(a))
+                ops.append(dict(plain_query([[f["server"], ty, 1]] + ([[f["server"], T_A + T_AAAA - ty, 1]] if rng.random() < 0.4 else []), [line],
+                                            scope=rng.choice([None, 3, 0])), port=5353))
+                continue
+        elif r < 0.91:
+            # async_update_service with a *new* ServiceInfo that has no server= (set_server_if_missing is not called on this path: D26)
+            i = rng.choice(list(live))
+            spec = dict(gen_svc(rng, name=live[i]["name"], type_=live[i]["type"]), server=None)
+            ops.append({"op": "Unew", "svc": spec, "obj": nid, "noserver": True})
+            past.insert(0, live.pop(i))
+            live[nid] = spec
+            nid += 1
+            ops.append(dict(plain_query(shaped_questions(spec_fields(spec), rng.choice(["ptr", "srv", "txt"]))), port=5353))
+            continue
         ops.append(dict(gen_query(rng, cur_fields(live), fl(past)), port=rng.choice([5353, 5353, 5353, 40000])))
     for o in ops:
         if o["op"] == "Q":
             o["msgs"] = o["msgs"][:1]
             o["msgs"][0]["probe"] = False
+            o.pop("pokes", None)
     return ops
 
 
-def assess_wire(res, ops, steps, errors, model_line, seed):
-    case = {"wire": True, "sim_seed": seed, "ops": ops}
+def model_dict(mline):
+    ma = mline.partition(" # ")[0]
+    mdict = {}
+    if ma not in ("none", "empty"):
+        for e in ma.split(" ; "):
+            parts = e.split(" , ")
+            mdict[nou(parts[0])] = parts[1:]
+    return mdict
+
+
+def assess_wire(res, ops, steps, errors, model_line, seed, v6=False):
+    case = {"wire": True, "sim_seed": seed, "v6": v6, "ops": ops}
     for e in errors:
         res.violate("C03:wire-exception", "the simulated host logged an error: %s" % e[:200], case)
     mobs = None
@@ -919,56 +1248,97 @@ def assess_wire(res, ops, steps, errors, model_line, seed):
         if model_line == "bad-op" or len(mobs) != len(steps):
             res.disagree("c03-wire", case, "%d steps" % len(steps), model_line[:200])
             mobs = None
+
+    def report(found, i):
+        seen_sig = set()
+        for sig, what, detail in found:
+            if sig in KNOWN_SIGS:
+                if sig in seen_sig:
+                    continue
+                seen_sig.add(sig)
+                res.count("finding-seen:" + sig)
+                if res.dist["finding-seen:" + sig] > 3:
+                    continue
+            res.violate(sig, what + " (on the wire)", dict(case, step=i, detail=repr(detail)))
+
     for i, s in enumerate(steps):
         q = s["q"]
         if q is None:
-            if s["impl"] != "ok":
+            if s["impl"] != "ok" and not (s["line"] is None and s["impl"] == "AssertionError"):
                 res.disagree("c03-wire", dict(case, step=i), s["impl"], "ok")
             continue
         res.evaluations += 1
         res.count("wire-queries")
+        res.count("wire-queries-ipv6-socket" if v6 else "wire-queries-ipv4-socket")
         res.count("wire-datagrams", len(q["pkts"]))
         if q.get("split"):
+            n, nq = q["split"]
+            if n != nq - 1:
+                continue
             na = sum(1 for p in q["pkts"] if p["after"])
             res.count("wire-change-queries")
             res.count("wire-datagrams-after-change", na)
             late = [p for p in q["pkts"] if p["after"] and not (len(p["answers"]) >= 3 and not p["adds"])]
-            res.nontriv(("wire-change", tuple(q["kinds"]), tuple(sorted(x.type for x in q["qs"])), min(q["delay"], 200) // 50, bool(late)))
-            seen_sig = set()
-            for sig, what, detail in change_oracle(q):
-                if sig in seen_sig:
-                    continue
-                seen_sig.add(sig)
-                if sig in (SIG_D20, SIG_D20B, SIG_D20C):
-                    key = "finding-seen:" + sig
-                    res.count(key)
-                    if res.dist[key] > 3:
+            res.nontriv(("wire-change", tuple(q["kinds"]), tuple(sorted(x.type for x in q["qs"])), min(q["delay"], 200) // 50, bool(late), v6))
+            report(change_oracle(q), i)
+            if mobs is not None:
+                # the model on the change family: what left before the change is a reply to the queries asked, computed in the
+                # state before -- every answer is an answer of the model's maps (exact line), with no additional the model does not attach
+                md = {}
+                for j in range(i - nq + 1, i + 1):
+                    for kk, vv in model_dict(mobs[j]).items():
+                        md.setdefault(kk, set()).update(vv)
+                lid = lambda l: ident(rtuple(rec_from_line(l)))  # noqa: E731
+                for p in q["pkts"]:
+                    if p["after"]:
                         continue
-                res.violate(sig, what + " (on the wire)", dict(case, step=i, detail=repr(detail)))
+                    got = sorted({nou(rline(a)) for a in p["answers"]})
+                    if any(g not in md for g in got):
+                        res.disagree("c03-wire-change-answers", dict(case, step=i), got, sorted(md))
+                        break
+                    want = {lid(x) for g in got for x in md[g]}
+                    extra = {ident(rtuple(x)) for x in p["adds"]} - want
+                    if extra:
+                        res.disagree("c03-wire-change-additionals", dict(case, step=i), sorted(map(str, extra)), sorted(map(str, want)))
+                        break
+            continue
+        if q.get("burst"):
+            j, n = q["burst"]
+            res.count("burst-queries")
+            if q["in_scope"]:
+                report(wire_oracle(q), i)
+            union = sorted({nou(rline(a)) for p in q["pkts"] for a in p["answers"]})
+            if union:
+                res.nontriv(("burst", j, n, tuple(sorted(x.type for x in q["qs"])), min(len(union), 4), len(q["pkts"]), v6))
+            if mobs is not None:
+                mine = model_dict(mobs[i])
+                if not set(mine) <= set(union):
+                    res.disagree("c03-wire-burst-complete", dict(case, step=i), union, sorted(mine))
+                if j == 0:
+                    allm = set()
+                    for jj in range(i, i + n):
+                        allm |= set(model_dict(mobs[jj]))
+                    if not set(union) <= allm:
+                        res.disagree("c03-wire-burst-sound", dict(case, step=i), union, sorted(allm))
             continue
         union = sorted({nou(rline(a)) for p in q["pkts"] for a in p["answers"]})
         if union:
-            res.nontriv(("wire", tuple(sorted((x.type, x.name.lower() == ENUM) for x in q["qs"])), min(len(union), 4), len(q["pkts"])))
+            res.nontriv(("wire", tuple(sorted((x.type, x.name.lower() == ENUM) for x in q["qs"])), min(len(union), 4), len(q["pkts"]), v6))
         if q["in_scope"]:
-            for sig, what, detail in wire_oracle(q):
-                res.violate(sig, what + " (on the wire)", dict(case, step=i, detail=repr(detail)))
+            report(wire_oracle(q), i)
         if mobs is not None:
-            ma = mobs[i].partition(" # ")[0]
-            mdict = {}
-            if ma not in ("none", "empty"):
-                for e in ma.split(" ; "):
-                    parts = e.split(" , ")
-                    mdict[nou(parts[0])] = parts[1:]
+            mdict = model_dict(mobs[i])
             if sorted(mdict) != union:
                 res.disagree("c03-wire-answers", dict(case, step=i), union, sorted(mdict))
                 continue
-            lid = lambda l: ident(rtuple(rec_from_line(l)))
+            lid = lambda l: ident(rtuple(rec_from_line(l)))  # noqa: E731
             for p in q["pkts"]:
                 aid = {ident(rtuple(a)) for a in p["answers"]}
                 want = {lid(x) for a in p["answers"] for x in mdict.get(nou(rline(a)), [])} - aid
                 got = {ident(rtuple(x)) for x in p["adds"]}
                 if want != got:
                     res.disagree("c03-wire-additionals", dict(case, step=i), sorted(map(str, got)), sorted(map(str, want)))
+
 
 
 # ------------------------------------------------------------------------------------------
@@ -1064,9 +1434,19 @@ def gen_query(rng, svcs, past, force_enum=False):
             qs.append([n, t, cl])
         if force_enum and mi == 0:
             qs[0] = [rng.choice([ENUM, ENUM.upper()]), T_PTR, 1 | (0x8000 if qu else 0)]
-        probe = mi == 1 and rng.random() < 0.7
-        msgs.append({"probe": probe, "qs": qs, "answers": gen_known(rng, svcs, past, 2 if probe else 4)})
-    return {"op": "Q", "ucast": rng.random() < 0.2, "msgs": msgs}
+        probe = rng.random() < (0.7 if mi == 1 else 0.12)   # a probe packet may come first (its authority records never count, the
+        msgs.append({"probe": probe, "qs": qs, "answers": gen_known(rng, svcs, past, 2 if probe else 4)})  # known answers of the others do)
+    if len(msgs) == 2 and rng.random() < 0.3:
+        msgs[0]["probe"], msgs[1]["probe"] = True, False
+        if not msgs[1]["answers"]:
+            msgs[1]["answers"] = gen_known(rng, svcs, past, 4)
+    op = {"op": "Q", "ucast": rng.random() < 0.2, "msgs": msgs, "scope": rng.choice(SCOPES)}
+    if rng.random() < 0.35:
+        # copies of own records in the cache, as the host's own multicasts leave them: inside / at / outside the last second and
+        # around a quarter of the TTL (the two cache-dependent routing tests)
+        op["pokes"] = [[rng.randrange(4), rng.choice("psstaaane"), rng.choice([0, 1, 500, 999, 1000, 1001, 29999, 30000, 30001, 1124999, 1125000, 2000000])]
+                       for _ in range(rng.choice([1, 2, 3, 6]))]
+    return op
 
 
 def gen_history(rng, nops):
@@ -1193,7 +1573,7 @@ def check_history(res, ops, ctx, label):
         if q is None:
             continue
         qs = " ".join(C.question_line(x) for x in q["qs"])
-        kn = " ".join(rline(k) for k in q["known"])
+        kn = " ".join(wire_line(k) for k in q["known"])  # the property's predicates get the querier's list as it is on the wire
         obs = " ".join(entry_tokens(r, adds) for r, adds in q["observed"])
         olines.append((si, "o", "c03o %d %s %d %s %d %s %d %s" % (len(q["svcs"]), " ".join(svc_line(f) for f in q["svcs"]), len(q["qs"]), qs, len(q["known"]), kn,
                                                            len(q["observed"]), obs)))
@@ -1270,6 +1650,10 @@ def assess(res, ops, steps, model_line, omodel, olines, label):
         in_claim = q["in_scope"] and not q["dirty"]
         pbad = oracle_on(q) if in_claim else []
         for sig, what, detail in pbad:
+            if sig in KNOWN_SIGS:
+                res.count("finding-seen:" + sig)
+                if res.dist["finding-seen:" + sig] > 3:
+                    continue  # a recorded finding is reported (and shrunk) three times per run, then only counted
             res.violate(sig, what, {"ops": ops[: si + 1], "step": si, "detail": repr(detail)})
         # lean predicates
         lbad = []
@@ -1288,7 +1672,7 @@ def assess(res, ops, steps, model_line, omodel, olines, label):
             elif kind == "n" and in_claim and o != "1":
                 lbad.append("repeat")
         if in_claim and omodel is not None:
-            psum = sorted({{"C03:enum-type-without-service": "unsound", "C03:unsound-answer": "unsound", "C03:answer-despite-known": "unsound",
+            psum = sorted({{"C03:enum-type-without-service": "unsound", "C03:unsound-answer": "unsound", "C03:answer-despite-known": "unsound", SIG_D25: "unsound",
                             "C03:foreign-additional": "additionals", "C03:missing-answer": "incomplete", "C03:additional-repeats-answer": "repeat",
                             "C03:additional-twice": "repeat"}.get(sig.rsplit(":", 1)[0] if sig.count(":") > 1 else sig, "other") for sig, _, _ in pbad} - {"other"})
             if sorted(set(lbad)) != psum:
@@ -1323,7 +1707,7 @@ def run(ctx):
                 "plus simulated-host histories through the public API observed on the wire")
     corpus = C.load_corpus("C03")
     histories = [("corpus/" + name, body["ops"]) for name, body in corpus if not body.get("wire")]
-    wire_corpus = [(body["ops"], body.get("sim_seed", 0)) for name, body in corpus if body.get("wire")]
+    wire_corpus = [(body["ops"], body.get("sim_seed", 0), bool(body.get("v6"))) for name, body in corpus if body.get("wire")]
     nq = 0
     batch = []
     done = False
@@ -1358,30 +1742,33 @@ def run(ctx):
             res.count("histories")
             res.count("ops", len(ops))
         batch = []
-        if nq >= budget or res.violations:
+        if nq >= budget or fresh_violation(res):
             done = True
-    # ---- second observation point: datagrams of a simulated host (skipped once a violation is in hand)
-    if not res.violations:
+    # ---- second observation point: datagrams of a simulated host (skipped once a violation that is not a recorded finding is in hand)
+    if not fresh_violation(res):
         runs = []
-        for ops, seed in wire_corpus:
-            steps, errors = exec_wire(ops, seed)
-            runs.append((ops, seed, steps, errors))
+        for ops, seed, v6 in wire_corpus:
+            steps, errors = exec_wire(ops, seed, v6)
+            runs.append((ops, seed, v6, steps, errors))
         for w in range(2 * wire_budget):
             wr = C.rng_for(ctx["seed"], "c03-wire", w)
             ops = gen_wire_history(wr) if w % 2 == 0 else gen_change_history(wr)
             seed = ctx["seed"] * 100003 + w
-            steps, errors = exec_wire(ops, seed)
-            runs.append((ops, seed, steps, errors))
+            v6 = wr.random() < 0.35   # the host's only socket is an IPv6 socket
+            steps, errors = exec_wire(ops, seed, v6)
+            runs.append((ops, seed, v6, steps, errors))
         model = None
+        has_model = lambda st: bool(st) and all(x["line"] is not None for x in st)  # noqa: E731  (no line: the update that raised, D26)
         if ctx["driver_ok"]:
             try:
-                model = C.run_driver(["c03 %d %s" % (len(st), " ".join(x["line"] for x in st)) if st else "ping" for _, _, st, _ in runs])
+                model = C.run_driver(["c03 %d %s" % (len(st), " ".join(x["line"] for x in st)) if has_model(st) else "ping" for _, _, _, st, _ in runs])
             except C.DriverUnavailable as ex:
                 res.notes.append("driver unavailable: %s" % ex)
-        for j, (ops, seed, steps, errors) in enumerate(runs):
-            ml = model[j] if model is not None and steps else None
-            assess_wire(res, ops, steps, errors, ml, seed)
+        for j, (ops, seed, v6, steps, errors) in enumerate(runs):
+            ml = model[j] if model is not None and has_model(steps) else None
+            assess_wire(res, ops, steps, errors, ml, seed, v6)
             res.count("wire-histories")
+            res.count("wire-histories-ipv6-socket" if v6 else "wire-histories-ipv4-socket")
     # shrink the first violation of each signature
     seen = set()
     shrunk = []
@@ -1409,11 +1796,17 @@ def run(ctx):
 
 
 def wire_violations(case):
-    steps, errors = exec_wire(case["ops"], case.get("sim_seed", 0))
+    steps, errors = exec_wire(case["ops"], case.get("sim_seed", 0), bool(case.get("v6")))
     v = [("C03:wire-exception", e, -1) for e in errors]
     for i, s in enumerate(steps):
-        if s["q"] is not None and s["q"]["in_scope"]:
-            v += [(sig, what, i) for sig, what, _ in (change_oracle(s["q"]) if s["q"].get("split") else wire_oracle(s["q"]))]
+        q = s["q"]
+        if q is None or not q["in_scope"]:
+            continue
+        if q.get("split"):
+            if q["split"][0] == q["split"][1] - 1:
+                v += [(sig, what, i) for sig, what, _ in change_oracle(q)]
+        else:
+            v += [(sig, what, i) for sig, what, _ in wire_oracle(q)]
     return v
 
 
@@ -1437,7 +1830,7 @@ def shrink_wire(case, sig):
                     ops = cand
             except Exception:  # noqa: BLE001
                 pass
-    return {"wire": True, "sim_seed": case.get("sim_seed", 0), "ops": ops, "shrunk_from": len(case["ops"])}
+    return {"wire": True, "sim_seed": case.get("sim_seed", 0), "v6": bool(case.get("v6")), "ops": ops, "shrunk_from": len(case["ops"])}
 
 
 def replay(body):
